@@ -27,6 +27,7 @@ def run(ctx):
     merge(ctx)
     failsafe(ctx)
     cols(ctx)
+    cleared(ctx)
 
 
 # ------------------------------------------------------------------------------------------------ writers
@@ -366,3 +367,46 @@ def cols(ctx):
             got.append(sorted((cm.deep_names(b, p, (bb, i))[0] if p is not None else set()) & set(CHANGE_COLS)))
         ok = all(col in g for col, g in zip(CHANGE_COLS, got))
         R.require(ok, "direct.param-order", "%s:%d" % (b.file, s[3]), "positional parameters follow the column order", fail_msg="crsql_changes positional params bind fields %s to columns %s" % (got, CHANGE_COLS))
+
+
+# ------------------------------------------------------------------------------------------------ cleared fast path
+def cleared(ctx):
+    """a chunk may be booked as `Cleared` (whole version known, nothing to apply) only if it is COMPLETE and empty: an empty chunk that
+    covers only part of 0..=last_seq is seq coverage of a partial version and must go through process_single_version"""
+    F = ctx.F
+    R = ctx.rule("C03.cleared", "K2+K9", "process_multiple_changes books a received changeset as Cleared without applying it only when it is both complete and empty")
+    fam = F.family(F.get(PMC)) if F.get(PMC) else []
+    b = next((x for x in fam if any((c.t.get("r") or c.f) == PSV for c in x.calls)), None)
+    if not R.anchor(b, "closure", "closure of process_multiple_changes calling process_single_version"):
+        return
+    cl = cm.agg_blocks(b, "klukai_types::agent::KnownDbVersion", "Cleared")
+    pev = [c for c in b.calls if (c.t.get("r") or c.f) == UTIL + "process_empty_version"]
+    ic = [c for c in b.calls if c.name() == "is_complete" and re.search(r"broadcast::(ChangeV1|Changeset)", c.f)]
+    ie = [c for c in b.calls if c.name() == "is_empty" and re.search(r"broadcast::(ChangeV1|Changeset)", c.f)]
+    psv = [c for c in b.calls if (c.t.get("r") or c.f) == PSV]
+    if not R.anchor(cl, "Cleared", "KnownDbVersion::Cleared construction"):
+        return
+    if not ic or not ie:
+        R.fail("cleared-iff-complete-and-empty", b.where(cl[0]), "the Cleared fast path (book the whole version as known without applying anything) is no longer guarded by %s: "
+               "an empty chunk covering only part of 0..=last_seq would mark the version as fully known" % ("is_complete()" if not ic else "is_empty()"))
+        return
+    c1 = [c for c in ic if any(b.can_reach(c.bb, x) for x in cl)][0]
+    c2 = [c for c in ie if any(b.can_reach(c.bb, x) for x in cl)][0]
+    import itertools
+    table = {}
+    eff = cl + [c.bb for c in pev]
+    for v1, v2 in itertools.product((False, True), repeat=2):
+        first = c1 if b.dominates(c1.bb, c2.bb) else c2
+        reach, _ = flow.eval_guard(b, {c1.bb: v1, c2.bb: v2}, start=first.bb, no_nodes={p.bb for p in psv})
+        table[(v1, v2)] = any(x in reach for x in cl)
+    want = {(True, True): True, (True, False): False, (False, True): False, (False, False): False}
+    R.require(table == want, "cleared-iff-complete-and-empty", b.where(cl[0]), "Cleared fast path by (is_complete, is_empty): %s" % table,
+              fail_msg="the Cleared fast path is taken under (is_complete, is_empty) = %s: an empty chunk covering only part of a version would mark the whole version as known and its other chunks are dropped / never applied"
+                       % [k for k, v in table.items() if v and not want[k]])
+    # per change: every path from taking the next change to the fast path evaluates is_complete
+    nx = [c for c in b.calls if c.name() == "next" and "ChangeV1" in c.self_ty + c.t.get("dty", "") + c.fi and b.dominates(c.bb, c1.bb) and b.in_loop_with(c.bb, c1.bb)]
+    if R.anchor(nx, "change-loop", "iteration over the changes of an actor"):
+        tgt = b.term(nx[-1].bb).get("tgt")
+        skip = [x for x in cl if x in b.reachable(tgt, no_nodes=(c1.bb, nx[-1].bb))]
+        R.require(not skip, "complete-checked-per-change", b.where(cl[0]), "every path from a change to the Cleared fast path asks is_complete()",
+                  fail_msg="some path to the Cleared fast path does not evaluate is_complete() for that change")
